@@ -289,6 +289,24 @@ func (db *DB) HoldsHaltLock(lockID int64) bool {
 	return curr != nil && curr.haltLock.ID == lockID
 }
 
+// PinHaltLock returns nil if lockID does not identify the halt lock that is
+// currently granted on this database. Otherwise the lock can neither be
+// released nor expire until the returned function is called.
+func (db *DB) PinHaltLock(lockID int64) (unpin func()) {
+	curr := db.haltLockAndGuard.Load().(*haltLockAndGuard)
+	if curr == nil || curr.haltLock.ID != lockID {
+		return nil
+	}
+
+	// Recheck once pinned as the lock may have been released in the meantime.
+	curr.pin.RLock()
+	if db.haltLockAndGuard.Load().(*haltLockAndGuard) != curr {
+		curr.pin.RUnlock()
+		return nil
+	}
+	return curr.pin.RUnlock
+}
+
 // This is a marker error and should not be propagated to the client.
 var errHaltLockAlreadyAcquired = errors.New("litefs: halt lock already acquired")
 
@@ -305,6 +323,10 @@ func (db *DB) ReleaseHaltLock(ctx context.Context, id int64) {
 		TraceLog.Printf("[ReleaseHaltLock.Done(%s)]: not-current-lock", db.name)
 		return // not the current lock
 	}
+
+	// Wait for any in-flight commit from the lock holder to finish.
+	curr.pin.Lock()
+	defer curr.pin.Unlock()
 
 	// Remove as the current halt lock. Ignore the swapped return since that
 	// just means that a concurrent release already took care of it.
@@ -324,6 +346,12 @@ func (db *DB) EnforceHaltLockExpiration(ctx context.Context) {
 	} else if curr.haltLock.Expires == nil || curr.haltLock.Expires.After(time.Now()) {
 		return
 	}
+
+	// Try again on the next tick if a commit from the lock holder is in flight.
+	if !curr.pin.TryLock() {
+		return
+	}
+	defer curr.pin.Unlock()
 
 	TraceLog.Printf("[ExpireHaltLock(%s)]: id=%d", db.name, curr.haltLock.ID)
 
@@ -3820,6 +3848,10 @@ type HaltLock struct {
 type haltLockAndGuard struct {
 	haltLock *HaltLock
 	guardSet *GuardSet
+
+	// Held shared while a commit from the lock holder is in flight and
+	// exclusively to release or expire the lock.
+	pin sync.RWMutex
 }
 
 // ChecksumBlockSize is the number of pages that are grouped into a single checksum block.
